@@ -32,3 +32,5 @@ pub mod unix;
 pub mod verif;
 #[cfg(all(tiny_std_verif, feature = "allocator-provided"))]
 pub mod verif_alloc;
+#[cfg(all(tiny_std_verif, feature = "threaded", feature = "symbols"))]
+pub mod verif_thread;
